@@ -315,7 +315,21 @@ func (w *world) exec(line string) stepResult {
 	case "ccAdd":
 		if _, ok := w.ccs[f[1]]; !ok {
 			hb, _ := strconv.Atoi(f[2])
-			w.ccs[f[1]] = &v1.ClusterCIDR{ObjectMeta: metav1.ObjectMeta{Name: f[1], ResourceVersion: "1", Generation: 1},
+			// resource versions are never re-used: a new object is newer than everything the API or the cache holds
+			fresh := 0
+			for _, c := range w.ccs {
+				if rv, _ := strconv.Atoi(c.ResourceVersion); rv > fresh {
+					fresh = rv
+				}
+			}
+			if w.ccInf != nil {
+				for _, o := range w.ccInf.inf.indexer.List() {
+					if rv, _ := strconv.Atoi(o.(*v1.ClusterCIDR).ResourceVersion); rv > fresh {
+						fresh = rv
+					}
+				}
+			}
+			w.ccs[f[1]] = &v1.ClusterCIDR{ObjectMeta: metav1.ObjectMeta{Name: f[1], ResourceVersion: strconv.Itoa(fresh + 1), Generation: 1},
 				Spec: v1.ClusterCIDRSpec{PerNodeHostBits: int32(hb), IPv4: decField(f[3]), IPv6: decField(f[4]), NodeSelector: decRawSel(f[5])}}
 		}
 	case "ccDel":
@@ -900,8 +914,8 @@ func (g *gen) randWsList() string {
 func genHistory(o *Out, rng *rand.Rand, id int, length int, profile string) []string {
 	g := &gen{rng: rng, w: newWorld(), o: o, stat: o.Stats, profile: profile}
 	o.Emit(fmt.Sprintf("hist %d", id), "hist")
-	if profile == "frag" {
-		g.fragHistory(length)
+	if profile == "frag" || profile == "fragboot" {
+		g.fragHistory(length, profile == "fragboot")
 		return g.lines
 	}
 	g.pickPlans()
@@ -1087,7 +1101,7 @@ var fragSel = []*corev1.NodeSelector{
 // ClusterCIDRs with pairwise disjoint ranges (each name at most once), one start, no label edits, nobody else writes pod
 // CIDRs, node writes succeed or fail (never applied-but-reported-failed), a node name is re-used only after its deletion
 // was delivered, delete notifications carry the final state.  Inside it the judge runs without any envelope.
-func (g *gen) fragHistory(length int) {
+func (g *gen) fragHistory(length int, boots bool) {
 	rng := g.rng
 	w := g.w
 	g.do("boot - - -")
@@ -1109,8 +1123,26 @@ func (g *gen) fragHistory(length int) {
 		g.do("deliverCC " + c)
 		g.do("procCC " + c + " -")
 	}
+	if boots && rng.Intn(3) == 0 {
+		g.lingeringDeletion(addCC)
+	}
 	for k := 0; k < length+20 && !g.dead; k++ {
 		x := rng.Intn(100)
+		if boots {
+			// restarts at any instant; deletions that linger (finalizers of other controllers) are frequent
+			switch y := rng.Intn(100); {
+			case y < 4:
+				ws := "-"
+				if rng.Intn(4) == 0 {
+					ws = g.randWsList()
+				}
+				g.do("boot - - " + ws)
+				g.stat["fragment-restarts"]++
+				continue
+			case y < 7:
+				x = 15
+			}
+		}
 		switch {
 		case x < 10: // a node appears (name unknown to API and cache)
 			n := g.nodeNames()[rng.Intn(6)]
@@ -1175,6 +1207,65 @@ func (g *gen) fragHistory(length int) {
 		}
 	}
 	g.stat["fragment-histories"]++
+}
+
+// lingeringDeletion: a small pool is filled, one of its nodes is marked for deletion and lingers (another controller's
+// finalizer), its block is released and goes to a newcomer; then the controller restarts and the deletion completes
+// (or the node's item is processed), and more newcomers are served — random choices at every step.
+func (g *gen) lingeringDeletion(addCC func(string)) {
+	rng := g.rng
+	w := g.w
+	c := []string{"c", "e", "a"}[rng.Intn(3)]
+	if _, ok := w.ccs[c]; !ok {
+		addCC(c)
+	}
+	g.do("deliverCC " + c)
+	g.do("procCC " + c + " -")
+	serve := func(n string) {
+		if _, ok := w.nodes[n]; !ok {
+			g.do(fmt.Sprintf("nodeAdd %s %s -", n, []string{"zone=a", "gpu=1,zone=a", "-", "zone=a,rack=7"}[rng.Intn(4)]))
+		}
+		g.do("deliverNode " + n + " 0")
+		if w.nodeQ.pending[n] {
+			g.do(fmt.Sprintf("procNode %s 0 -", n))
+		}
+		if rng.Intn(2) == 0 {
+			g.do("deliverNode " + n + " 0")
+		}
+	}
+	names := g.nodeNames()
+	k := 1 + rng.Intn(4)
+	for _, n := range names[:k] {
+		serve(n)
+	}
+	victim := names[rng.Intn(k)]
+	g.do("nodeDeleting " + victim)
+	if rng.Intn(4) > 0 {
+		g.do("deliverNode " + victim + " 0")
+		if w.nodeQ.pending[victim] && rng.Intn(4) > 0 {
+			g.do(fmt.Sprintf("procNode %s 0 -", victim))
+		}
+	}
+	for _, n := range names[k : k+1+rng.Intn(2)] {
+		serve(n)
+	}
+	g.do("boot - - -")
+	g.stat["fragment-restarts"]++
+	switch rng.Intn(3) {
+	case 0:
+		g.do("nodeDel " + victim)
+		g.do("deliverNode " + victim + " 0")
+	case 1:
+		if w.nodeQ.pending[victim] {
+			g.do(fmt.Sprintf("procNode %s 0 -", victim))
+		}
+	}
+	for _, n := range names[k+1:] {
+		if rng.Intn(3) > 0 {
+			serve(n)
+		}
+	}
+	g.stat["lingering-deletion-prefixes"]++
 }
 
 // lifeHistory: a directed history through the whole life of assignments and ClusterCIDRs — nodes served with
